@@ -302,6 +302,11 @@ def fresh(spec):
     return conf
 
 
+# flavours of the query that by-pass the cache: (name, keyword arguments)
+FLAVOURS = (('raw', {'raw': True, 'include_default': True}),       # what getOptionForNode asks
+            ('nodefaults', {}))                                    # include_default=False (the method's defaults)
+
+
 def pairs_of(spec):
     cids = [tuple(c) for c in spec['comps']] + [(spec['add']['stage'], spec['add']['name'])]
     return [(cid, p) for cid in cids for p in PLATFORMS]
@@ -325,6 +330,19 @@ def expected_for(spec, raw, dkey):
             out[(cid, p)] = ('ok', scratch.get_component_configuration(cid, include_default=True, platform=p))
         except Exception as e:
             out[(cid, p)] = ('raised', type(e).__name__)
+    # the flavours that are never cached, asked on the active platform for the two mutable components
+    for cid in [tuple(c) for c in spec['comps']]:
+        for fname, kw in FLAVOURS:
+            try:
+                scratch = FlowIRConcrete(raw, spec['active'], {})
+            except Exception as e:
+                out[(cid, spec['active'], fname)] = ('unbuildable', type(e).__name__)
+                continue
+            try:
+                out[(cid, spec['active'], fname)] = ('ok', scratch.get_component_configuration(
+                    cid, platform=spec['active'], **kw))
+            except Exception as e:
+                out[(cid, spec['active'], fname)] = ('raised', type(e).__name__)
     if len(_EXPECT) >= _EXPECT_MAX:
         _EXPECT.clear()
     _EXPECT[mk] = out
@@ -393,12 +411,19 @@ def judge(col, sink, spec, history, raw, got, exp, pair, phase, was_cached):
         return True
     if got[0] == exp[0] and (got[1] == exp[1]):
         return True
-    cid, p = pair
-    where = 'get_component_configuration(%s, include_default=True, platform=%s)' % (_ref(cid), p)
+    cid, p = pair[0], pair[1]
+    flavour = pair[2] if len(pair) > 2 else 'resolved'
+    where = 'get_component_configuration(%s, %s, platform=%s)' % (
+        _ref(cid), {'resolved': 'include_default=True', 'raw': 'raw=True, include_default=True',
+                    'nodefaults': 'include_default=False'}[flavour], p)
     cached = 'cached' if was_cached else 'uncached'
     live_r = 'ok' if got[0] == 'ok' else got[1]
     scratch_r = 'ok' if exp[0] == 'ok' else exp[1]
-    if phase != 'first':
+    if phase == 'description-after-queries':
+        kind = 'copy-leak-into-description'
+        why = ('after the caller changed dicts returned by queries the description itself changed: %s asked on a '
+               'FlowIRConcrete built from raw() now differs from what it was before the queries' % where)
+    elif phase != 'first':
         kind = 'copy-leak'
         why = ('%s answered correctly, the caller changed the returned dict, and the %s query then returned a different '
                'configuration' % (where, phase))
@@ -421,21 +446,24 @@ def judge(col, sink, spec, history, raw, got, exp, pair, phase, was_cached):
         detail = ['live=%s scratch=%s' % (live_r, scratch_r)]
         fields = []
     sections = platform_sections(raw, p)
-    sig = '%s:%s:live=%s:scratch=%s:platform=%s:variables-sections=%s:fields=%s:after-%s' % (
-        kind, cached, live_r, scratch_r, p, sections, ','.join(fields) or '-', last_mutator(history))
+    sig = '%s:%s:%s:live=%s:scratch=%s:platform=%s:variables-sections=%s:fields=%s:after-%s' % (
+        kind, flavour, cached, live_r, scratch_r, p, sections, ','.join(fields) or '-', last_mutator(history))
     col.outcome('FAIL:' + kind)
     sink.append({
         'case': {'init': spec['name'], 'history': [list(op) for op in history]},
         'why': '%s [%s entry, history of %d operations]: %s' % (why, cached, len(history), '; '.join(detail)),
-        'observed': {'pair': [list(cid), p], 'phase': phase, 'kind': kind, 'cached_before': was_cached,
+        'observed': {'pair': [list(cid), p], 'flavour': flavour, 'phase': phase, 'kind': kind,
+                     'cached_before': was_cached,
                      'live': live_r, 'scratch': scratch_r, 'diff': detail, 'last_mutator': last_mutator(history),
                      'platform_variables_sections': sections},
         'sig': sig})
     return False
 
 
-def _ask(conc, cid, p):
+def _ask(conc, cid, p, kw=None):
     try:
+        if kw is not None:
+            return 'ok', conc.get_component_configuration(cid, platform=p, **kw)
         return 'ok', conc.get_component_configuration(cid, include_default=True, platform=p)
     except HarnessError:
         raise
@@ -470,6 +498,34 @@ def oracle(col, sink, spec, conf, history, raw, dkey):
             got = _ask(conc, cid, p)
             col.count('oracle_comparisons')
             if not judge(col, sink, spec, history, raw, got, e, (cid, p), phase, was_cached):
+                break
+    # now that every cache entry that can exist is filled: the flavours that must by-pass the cache
+    p = spec['active']
+    for cid in [tuple(c) for c in spec['comps']]:
+        for fname, kw in FLAVOURS:
+            e = exp[(cid, p, fname)]
+            if e[0] == 'unbuildable':
+                continue
+            for phase in ('first', 'second'):
+                col.count('oracle_comparisons')
+                got = _ask(conc, cid, p, kw)
+                if not judge(col, sink, spec, history, raw, got, e, (cid, p, fname), phase, _label(p, cid) in labels):
+                    break
+                if got[0] != 'ok':
+                    break
+                scramble(got[1])
+            else:
+                col.outcome('flavour:%s:equal' % fname)
+    # the scrambled dicts must not have been wired into the description: what a from-scratch object answers for the
+    # description as it is NOW must be what it answered before the queries (getters may add empty sections, which is
+    # why descriptions are not compared literally)
+    _, dkey2, raw2 = state_key(conc)
+    if dkey2 != dkey:
+        col.outcome('description-touched-by-queries')
+        exp2 = expected_for(spec, raw2, dkey2)
+        for k in exp:
+            if exp[k] != exp2[k] and exp[k][0] != 'unbuildable':
+                judge(col, sink, spec, history, raw, exp2[k], exp[k], k, 'description-after-queries', False)
                 break
 
 
